@@ -64,6 +64,7 @@ EnvSim ==
   \/ (Len(chain) > 0 \/ steps > 2 * (MBTSteps \div 3)) /\ \E n \in R(1..(MaxHead + 1)) : Snapshot(n)
   \/ /\ Len(chain) > 0
      /\ \E n \in R(Oldest(chain)..Tip(chain)) : Snapshot(n)
+  \/ ReaderChain
   \/ \E v \in R(Variants) : HeadAdvance(v)
   \/ HeadRevert
 
